@@ -351,8 +351,11 @@ pub struct Knobs {
 pub fn gen_history(r: &mut Rng, k: &Knobs) -> String {
     let topo = Topo::new(k.topo);
     let mut cmds: Vec<String> = vec![topo.daemon_cmd()];
-    if !r.chance(1, 6) {
-        cmds.push("ipint 0 100000".to_string());
+    match r.below(12) {
+        0 => {}                                        // default interface check every 5 s
+        1 => cmds.push("ipint 0 1".to_string()),       // every second
+        2 => cmds.push("ipint 0 0".to_string()),       // disabled
+        _ => cmds.push("ipint 0 100000".to_string()),
     }
     if !r.chance(1, 8) {
         cmds.push("monitor 0 900".to_string());
@@ -441,7 +444,8 @@ pub fn gen_history(r: &mut Rng, k: &Knobs) -> String {
                 let about = if r.chance(1, 8) { &pool[..] } else { &registered[..] };
                 if let Some(q) = gen_query(r, about) {
                     let v6 = topo.has_v6() && r.chance(1, 3);
-                    let ifi = if topo.two() && r.chance(1, 3) { 3 } else { 2 };
+                    // sometimes an interface the daemon does not have
+                    let ifi = if r.chance(1, 25) { 9 } else if topo.two() && r.chance(1, 3) { 3 } else { 2 };
                     let src = if v6 { "fe80::50".to_string() } else { r.pick(&srcs4).to_string() };
                     let port = *r.pick(&[5353u64, 5353, 5353, 5354, 40000, 53]);
                     cmds.push(format!("inject 0 {} {} {} {} {}", ifi, b(!v6), src, port, q));
@@ -474,6 +478,9 @@ pub fn gen_history(r: &mut Rng, k: &Knobs) -> String {
                 now += *r.pick(&[100u64, 250, 700, 749, 750, 751, 1000, 1200, 2000]);
                 cmds.push(format!("now {}", now));
             }
+        }
+        if r.chance(1, 30) {
+            cmds.push(format!("monitor 0 {}", 901 + step)); // a second monitor joins later
         }
         now += *r.pick(DTS);
         cmds.push(format!("run {}", now));
